@@ -9,6 +9,7 @@ import (
 	"bytes"
 	"context"
 	"fmt"
+	"sort"
 	"strings"
 
 	"github.com/hedzr/logg/slog"
@@ -188,6 +189,48 @@ func runC13(r *run) {
 					}
 					for _, p := range problems {
 						r.violate(violation{What: p, Input: input, Actual: obs})
+					}
+					// from the statement: siblings of a failing destination are still served once each; the
+					// diagnostic goes, once, to the logger's warning destinations
+					sel := func(sv int) []int {
+						if sv == lvSev && len(lvw) > 0 {
+							return lvw
+						}
+						if sv == 0 || sv == 1 || sv == 2 || sv == 3 || sv == 11 {
+							return errs
+						}
+						return normal
+					}
+					writesOf := func(rec string) (ids []int, failed bool) {
+						for _, ev := range strings.Split(rec, ",") {
+							if strings.HasPrefix(ev, "w") {
+								var id, ok int
+								fmt.Sscanf(ev, "w%d=%d", &id, &ok)
+								ids = append(ids, id)
+								failed = failed || ok == 0
+							}
+						}
+						sort.Ints(ids)
+						return
+					}
+					sorted := func(xs []int) []int { ys := append([]int{}, xs...); sort.Ints(ys); return ys }
+					if baseline != "-" && obs != "-" && panicked == "" {
+						recs := strings.Split(obs, "|")
+						ids, failed := writesOf(recs[0])
+						if fmt.Sprint(ids) != fmt.Sprint(sorted(sel(sev))) {
+							r.violate(violation{What: "a destination selected for the record did not get exactly one attempt with it while another destination was failing", Input: input,
+								Expected: fmt.Sprint(sorted(sel(sev))), Actual: obs})
+						}
+						admitsWarn := L == 8 || L >= 3
+						if failed && sev != 3 && admitsWarn {
+							if len(recs) != 2 {
+								r.violate(violation{What: "a failing record that is not a warning did not produce exactly one diagnostic on the logger's own destinations", Input: input,
+									Expected: "one diagnostic to the warning destinations " + fmt.Sprint(sorted(sel(3))), Actual: obs})
+							} else if dids, _ := writesOf(recs[1]); fmt.Sprint(dids) != fmt.Sprint(sorted(sel(3))) {
+								r.violate(violation{What: "the diagnostic did not go to the logger's warning destinations, once each", Input: input,
+									Expected: fmt.Sprint(sorted(sel(3))), Actual: obs})
+							}
+						}
 					}
 					// recovery: the same call without faults
 					log.fails = nil
